@@ -18,7 +18,7 @@ func init() {
 			"a migration order is stored only after the validator returned nil, whose summary holds Verify(registered GCA key, order.SigningBytes(), order.Signature) and which rejects any inner server not signed by the order's new GCA. " +
 			"CLIENT SIDE (with C10 and C11): the GCA key, device id and server map are assigned only values returned by the sync parser, under its err == nil result, and only in the branch where the new GCA is non-zero and differs from the current one; " +
 			"each of the three assignments is preceded, on every path, by a successful write of the same value to the file its loader reads (gcaPubKey.dat, shortID.dat little-endian, gcaServers.dat via the map encoder), so a restart resumes with what was adopted. " +
-			"NOT decided: sequences of posts as such; that the three client files are updated atomically with respect to a crash (the code documents that risk itself).",
+			"COVER the signing bytes of AuthorizedServer and EquipmentMigration cover every field (elements of NewServers through their own Serialize) and cut exactly the trailing signature; the parser-acceptance rules of C10 and the MERGE/PERSIST rules of C11 for the client server map are re-run here because this property states them too. NOT decided: sequences of posts as such; that the three client files are updated atomically with respect to a crash (the code documents that risk itself).",
 		Assumptions: append([]string{"glow.Verify is sound (trusted)"}, baseAssumptions...),
 		Run:         runC17,
 	})
